@@ -179,8 +179,9 @@ type window struct {
 func windows(tier string) []window {
 	if tier == "thorough" {
 		return []window{
-			{"year-change", PDate{1999, 12, 12}, 40}, {"leap-year-end", PDate{2000, 12, 12}, 40}, {"leap-feb", PDate{2000, 2, 10}, 40}, {"nonleap-feb", PDate{1900, 2, 10}, 40},
-			{"start-of-time", PDate{1, 1, 1}, 40}, {"end-of-time", PDate{9999, 11, 22}, 40}, {"mid-year", PDate{1943, 8, 20}, 40},
+			{"year-change", PDate{1999, 12, 1}, 64}, {"leap-year-end", PDate{2000, 12, 1}, 64}, {"leap-feb", PDate{2000, 1, 30}, 64}, {"nonleap-feb", PDate{1900, 1, 30}, 64},
+			{"start-of-time", PDate{1, 1, 1}, 64}, {"end-of-time", PDate{9999, 10, 29}, 64}, {"mid-year", PDate{1943, 8, 1}, 64}, {"century-change", PDate{1899, 12, 1}, 64},
+			{"julian-gap-1582", PDate{1582, 9, 20}, 64}, {"year-99-to-100", PDate{99, 12, 1}, 64},
 		}
 	}
 	return []window{
@@ -207,6 +208,8 @@ func granularityRanges() []Rng {
 		{1999, 0, 0}, {2000, 0, 0}, {2001, 0, 0},
 		{1999, 12, 0}, {2000, 1, 0}, {2000, 2, 0}, {2000, 3, 0}, {2000, 12, 0}, {2001, 1, 0},
 		{1999, 12, 31}, {2000, 1, 1}, {2000, 1, 31}, {2000, 2, 1}, {2000, 2, 15}, {2000, 2, 28}, {2000, 2, 29}, {2000, 3, 1}, {2000, 12, 31}, {2001, 1, 1},
+		// February of a century year that is not a leap year, at every granularity
+		{1900, 0, 0}, {1900, 2, 0}, {1900, 3, 0}, {1900, 2, 28}, {1900, 3, 1},
 	}
 	var out []Rng
 	for _, s := range dates {
